@@ -223,6 +223,7 @@ func cloneScen(s *scen) *scen {
 	n.touch, n.wait, n.tail = cloneMap(s.touch), cloneMap(s.wait), cloneMap(s.tail)
 	n.Edges = append([]string(nil), s.Edges...)
 	n.Shells = append([]string(nil), s.Shells...)
+	n.Fallbacks = append([]fallback(nil), s.Fallbacks...)
 	n.Crashers = map[string]bool{}
 	for k, v := range s.Crashers {
 		n.Crashers[k] = v
